@@ -7,8 +7,20 @@
     [W4 C D v] is, in units where a covered bin must weigh 6 D, a staircase with ramps of
     slope 6 (per unit of value): 0 .. 2D on [0, D/3], flat 2D up to C/2 - D/6, a ramp
     through (C/2, 3D) up to 4D, flat 4D up to C - D/3, a ramp up to 6D at C.
-    Every set of values reaching C weighs at least 6 D ([W4_valid]); for a suitable D the
-    bins closed by the heuristic weigh 8 D each on average, up to an additive 32 D. *)
+    (D = C gives six times the capped value.)
+    Every set of values reaching C weighs at least 6 D ([W4_valid], hence
+    [cover_weight_bound4]: OPT * 6 D <= total weight).  On the side of the heuristic
+    ([tq_weights]) the total weight is at most 8 D per filled bin plus 22 D, where
+      D = min (C, 3 (C - x), 9 (C - 2 y))   ([Dfin])
+    over the big items x < C and the medium items y (except the largest) that are left when
+    the small items run out (D = C when the big and medium items run out first):
+    - a bin of the main loop opened by a big item, or by two medium items lying on the
+      ramp, weighs at most 8 D ([binX], [binY_pair]); at most one bin is opened by a pair
+      whose smaller item lies on the flat part, it weighs at most 9 D (allowance [Bud]);
+    - in the finishing phases ([finish_B], [good_A]) the decreasing subroutine is followed
+      with a potential depending on the level of the open bin ([acct], [PX], [PY], [PZ]):
+      left-over big items weigh <= 4 D (two per bin), medium ones <= 8 D / 3 (three per bin).
+    Result: 18 * OPT <= 24 * bins + 66, i.e. 3 * OPT <= 4 * bins + 11. *)
 From Prtpy Require Import Base.Prelude Model.Binner Model.Covering Spec.Partition
   Proofs.BaseLemmas Proofs.BinnerLemmas Proofs.CoveringProofs Proofs.SNPProofs.
 From Coq Require Import Sorting.Sorted ZifyBool.
@@ -902,4 +914,164 @@ Section CoverRatio34.
              ++ change (zsum (map valueof (firstn 1 (x0 :: big')))) with (valueof x0 + 0) in Ecmp.
                 lia.
              ++ replace (valueof x0) with (vsum [x0]) by (cbn; lia). exact Hused.
-        * Show.
+        * (* opened by the two largest medium items *)
+          pose proof (firstn_nonneg_sum valueof 1 big (bigp_pos C _ HC Hb)) as Hb0.
+          destruct medium as [|m1 [|m2 rest]].
+          { change (zsum (map valueof (firstn 2 []))) with 0 in Ecmp. lia. }
+          { cbn [firstn skipn fold_left].
+            change (zsum (map valueof (firstn 2 [m1]))) with (valueof m1 + 0) in Ecmp.
+            inversion Hm as [|a1 l1 Hm1 _]; subst a1 l1. pose proof Hm1 as [Hm13 Hm12].
+            apply (iter_step C f HC IH bs big [m1] (s0 :: smt) big [] [m1]); try assumption.
+            - cbn. lia.
+            - reflexivity.
+            - cbn. lia.
+            - apply incl_refl.
+            - intros a Ha. destruct Ha.
+            - apply incl_refl.
+            - constructor.
+            - constructor.
+            - intros used D HD Hused. pose proof HD as (HD0 & _).
+              pose proof (Bud_incl C D [] [m1] HD0 (incl_nil_l _)) as HB.
+              assert (H : 3 * wsum4 C D ([m1] ++ used) <= 24 * D); [|lia].
+              cbn [app]. apply (binY_single C D big m1 used); try assumption; [lia|].
+              replace (valueof m1) with (vsum [m1]) by (cbn; lia). exact Hused. }
+          cbn [firstn skipn fold_left].
+          change (zsum (map valueof (firstn 2 (m1 :: m2 :: rest))))
+            with (valueof m1 + (valueof m2 + 0)) in Ecmp.
+          inversion Hm as [|a1 l1 [Hm13 Hm12] Hm']; subst a1 l1.
+          inversion Hm' as [|a2 l2 [Hm23 Hm22] Hmr]; subst a2 l2.
+          inversion Hsm as [|a1 l1 Hsm' _]; subst a1 l1.
+          inversion Hsm' as [|a2 l2 Hsr _]; subst a2 l2.
+          apply (iter_step C f HC IH bs big (m1 :: m2 :: rest) (s0 :: smt) big rest [m1; m2]);
+            try assumption.
+          -- cbn. lia.
+          -- reflexivity.
+          -- cbn. lia.
+          -- apply incl_refl.
+          -- intros a Ha. right. right. exact Ha.
+          -- intros a Ha. cbn [tl]. right. destruct rest as [|r0 rt]; [destruct Ha|right; exact Ha].
+          -- intros used D HD Hused. cbn [app].
+             apply (binY_pair C D big m1 m2 rest used); try assumption; [lia|].
+             replace (valueof m1 + valueof m2) with (vsum [m1; m2]) by (cbn; lia). exact Hused.
+  Qed.
+
+  Lemma desc_filter (p : A -> bool) l : desc l -> desc (filter p l).
+  Proof.
+    induction 1 as [|a l Hs IH Hf]; cbn [filter]; [constructor|].
+    destruct (p a); [|exact IH]. constructor; [exact IH|].
+    apply Forall_forall. intros b Hb. apply filter_In in Hb. destruct Hb as [Hb _].
+    rewrite Forall_forall in Hf. apply Hf. exact Hb.
+  Qed.
+
+  (** ---- the whole run: some D accounts for all the bins and the left-over ---- *)
+  Lemma tq_weights C items : 0 < C -> Forall (fun a => 0 < valueof a) items ->
+    exists D rest, 0 < D /\ D <= C /\
+      Permutation (contents (cover_threequarters valueof true C items) ++ rest) items /\
+      3 * (wsum4 C D (contents (cover_threequarters valueof true C items)) + wsum4 C D rest)
+        <= 24 * D * Z.of_nat (length (cover_threequarters valueof true C items)) + 66 * D.
+  Proof.
+    intros HC Hpos. unfold cover_threequarters. cbv zeta.
+    set (s := sort_desc valueof items).
+    set (B := filter (is_big valueof C) s). set (M := filter (is_medium valueof C) s).
+    set (Z := filter (is_small valueof C) s).
+    set (st := tq_loop valueof true (S (length items)) C ([], empty_bin) B M Z).
+    assert (Hs : Forall (fun a => 0 < valueof a) s).
+    { eapply Permutation_Forall; [symmetry; apply sort_desc_perm|exact Hpos]. }
+    pose proof (classes_perm valueof C s HC) as HP. fold B M Z in HP.
+    assert (Hinv : cinv valueof C items st []).
+    { subst st. apply tq_loop_inv; try assumption.
+      - apply cinv_init; [exact HC|]. rewrite HP. apply sort_desc_perm.
+      - apply Forall_filter. exact Hs.
+      - apply Forall_filter. exact Hs.
+      - apply Permutation_length in HP. rewrite !app_length in HP.
+        unfold s in HP. rewrite sort_desc_length in HP. lia. }
+    destruct Hinv as (_ & _ & _ & _ & HPi). rewrite app_nil_r in HPi.
+    assert (Hsorted : desc s) by apply sort_desc_sorted.
+    assert (Hgood : good C [] B M st).
+    { subst st. apply main_all; try assumption.
+      - apply desc_filter. exact Hsorted.
+      - apply desc_filter. exact Hsorted.
+      - eapply Forall_impl; [|apply (filter_Forall_both _ (is_big valueof C) s Hs)].
+        cbv beta. unfold is_big, bigp. intros a [_ Ha]. lia.
+      - eapply Forall_impl; [|apply (filter_Forall_both _ (is_medium valueof C) s Hs)].
+        cbv beta. unfold is_medium, medp. intros a [_ Ha]. lia.
+      - eapply Forall_impl; [|apply (filter_Forall_both _ (is_small valueof C) s Hs)].
+        cbv beta. unfold is_small, smp. intros a [Ha0 Ha]. lia.
+      - left. reflexivity.
+      - apply resid_empty. exact HC. }
+    destruct Hgood as (new & D & H1 & (HD & HDC & _) & H3). cbn [app] in H1.
+    exists D, (snd (snd st)). rewrite H1 in *. pose proof (Bud_bounds C D M HD).
+    split; [exact HD|]. split; [exact HDC|]. split; [exact HPi|]. lia.
+  Qed.
+
+  (** C10: threequarters fills at least 3/4 of OPT, up to an additive constant.
+      The accounting gives 18 * OPT <= 24 * bins + 66, i.e. 3 * OPT <= 4 * bins + 11. *)
+  Theorem threequarters_ratio_strong : forall C items n, 0 < C ->
+    Forall (fun x => 0 < valueof x) items -> MaxCover C (map valueof items) n ->
+    (3 * n <= 4 * length (cover_threequarters valueof true C items) + 11)%nat.
+  Proof.
+    intros C items n HC Hpos [Hcov _].
+    destruct (tq_weights C items HC Hpos) as (D & rest & HD & HDC & HP & Hw).
+    assert (Hopt : Z.of_nat n * (6 * D) <= wsum4 C D items).
+    { unfold wsum4. rewrite <- (map_map valueof (W4 C D)).
+      apply cover_weight_bound4; try assumption.
+      rewrite Forall_map. eapply Forall_impl; [|exact Hpos]. cbv beta. intros x Hx. lia. }
+    rewrite <- (wsum4_perm C D _ _ HP), wsum4_app in Hopt.
+    set (m := length (cover_threequarters valueof true C items)) in *.
+    assert (Hle : (18 * Z.of_nat n) * D <= (24 * Z.of_nat m + 66) * D) by lia.
+    apply Z.mul_le_mono_pos_r in Hle; [lia|exact HD].
+  Qed.
+
+  Theorem threequarters_ratio : forall C items n, 0 < C ->
+    Forall (fun x => 0 < valueof x) items -> MaxCover C (map valueof items) n ->
+    (3 * n <= 4 * length (cover_threequarters valueof true C items) + 16)%nat.
+  Proof.
+    intros C items n HC Hpos Hmax.
+    pose proof (threequarters_ratio_strong C items n HC Hpos Hmax). lia.
+  Qed.
+End CoverRatio34.
+
+(** ---- the guarantee against the executable oracle, and examples ---- *)
+From Prtpy Require Import Oracle.Reach Proofs.OracleSpec.
+
+Corollary threequarters_ratio_oracle : forall C vs, 0 < C -> Forall (fun v => 0 < v) vs ->
+  (3 * max_cover C vs <= 4 * length (cover_threequarters idz4 true C vs) + 16)%nat.
+Proof.
+  intros C vs HC Hpos. apply (threequarters_ratio idz4 C vs (max_cover C vs) HC Hpos).
+  change (map idz4 vs) with (map (fun v : Z => v) vs). rewrite map_id.
+  apply max_cover_spec; assumption.
+Qed.
+
+(** the heuristic can lose a bin: OPT = 2 ([8;5], [7;6]), one bin filled *)
+Example threequarters_ratio_loss :
+  max_cover 12 [8; 7; 6; 5] = 2%nat /\
+  cover_threequarters idz4 true 12 [8; 7; 6; 5] = [(15, [8; 7])].
+Proof. vm_compute. split; reflexivity. Qed.
+
+(** a run with an unbalanced medium pair (49 + 35 beats 80 although 2 * 35 < 80): with
+    D = 3 * (100 - 80) = 60 the item 35 lies on the flat part of the weight (120 = 2 D
+    instead of 90); such a bin can weigh up to 9 D instead of 8 D, which happens at most
+    once per run and is paid by the allowance [Bud] *)
+Example threequarters_ratio_unbalanced :
+  max_cover 100 [80; 80; 49; 35; 34; 6; 5; 5; 4] = 2%nat /\
+  cover_threequarters idz4 true 100 [80; 80; 49; 35; 34; 6; 5; 5; 4] =
+    [(104, [49; 35; 4; 5; 5; 6]); (160, [80; 80])] /\
+  map (W4 100 60) [49; 35; 4; 5; 5; 6] = [174; 120; 24; 30; 30; 36].
+Proof. vm_compute. repeat split; reflexivity. Qed.
+
+(** the docstring instance for 3/4 with k = 1, scaled by 1/10 and shortened to 9 items *)
+Example threequarters_ratio_docstring :
+  let vs := [59; 59; 40; 40; 40; 40; 1; 1; 1] in
+  (max_cover 120 vs, cover_threequarters idz4 true 120 vs) =
+  (2%nat, [(120, [59; 59; 1; 1]); (121, [40; 40; 1; 40])]).
+Proof. vm_compute. reflexivity. Qed.
+
+(** the weights: a covered bin weighs at least 6 D, e.g. D = 60, C = 100 *)
+Example W4_values :
+  map (W4 100 60) [5; 20; 33; 34; 45; 50; 55; 70; 80; 90; 100; 120] =
+  [30; 120; 120; 120; 150; 180; 210; 240; 240; 300; 360; 360].
+Proof. vm_compute. reflexivity. Qed.
+
+Print Assumptions threequarters_ratio.
+Print Assumptions threequarters_ratio_strong.
+Print Assumptions threequarters_ratio_oracle.
